@@ -15,6 +15,33 @@ import vf
 PROP = "C03"
 MC_BODY = "INIT Init\nNEXT Next\nVIEW View\nINVARIANT SuccessMeansComplete\nINVARIANT NoBadBlobLeft\nINVARIANT NeverDangling\nINVARIANT RetryCanSucceed\nCHECK_DEADLOCK FALSE\n"
 GEN_BODY = "INIT Init\nNEXT Next\nCONSTRAINT Emit\nCHECK_DEADLOCK FALSE\n"
+ASIS = {"VerifyStopsAtFirst": "FALSE", "VerifyOnFailure": "FALSE"}
+
+
+def known_pull_finding(recs_of_script, findings):
+    """unverified-blob-left-by-failed-attempt: at the first violating attempt every bad blob became bad in an EARLIER attempt
+    that failed for another reason than a digest mismatch (it never reached the verification stage) and stayed in place since."""
+    atts = [r for r in recs_of_script if r["ev"] == "attempt"]
+    for i, r in enumerate(atts):
+        viol = (r["err"] == "" and (r["man"] != "new" or any(x != "good" for x in r["final"]))) or \
+               (r["man"] == "new" and any(x != "good" for x in r["final"]))
+        if not viol:
+            if r["man"] not in ("absent", "old", "new") or (r["man"] == "old" and not r["oldok"]) or (r["last"] and r["faults"] == 0 and r["err"]):
+                return None
+            continue
+        if "unverified-blob-left-by-failed-attempt" not in findings or any(x == "absent" for x in r["final"]):
+            return None
+        for b, x in enumerate(r["final"]):
+            if x != "bad":
+                continue
+            j = i
+            while j > 0 and atts[j - 1]["final"][b] == "bad":
+                j -= 1
+            # atts[j] is the attempt in which the blob became bad
+            if j == i or atts[j]["err"] == "" or "digest mismatch" in atts[j]["err"]:
+                return None
+        return "unverified-blob-left-by-failed-attempt"
+    return None
 
 
 def run(tier="quick", seed=1, replay=None):
@@ -27,15 +54,22 @@ def run(tier="quick", seed=1, replay=None):
             scripts = [json.loads(l) for l in open(replay) if l.strip()]
         else:
             for pre in ("none", "old"):
-                cfg = vf.write_cfg(wd, f"MC_Pull_{pre}.cfg", {"MaxAttempts": 2 if quick else 3, "MaxFaults": 2, "Pre": f'"{pre}"'}, MC_BODY)
+                # the repaired design (every downloaded blob is verified, also when the attempt fails early) satisfies the invariants
+                cfg = vf.write_cfg(wd, f"MC_Pull_{pre}.cfg", {"MaxAttempts": 2 if quick else 3, "MaxFaults": 2, "Pre": f'"{pre}"',
+                                                              "VerifyStopsAtFirst": "FALSE", "VerifyOnFailure": "TRUE"}, MC_BODY)
                 r = vf.tlc("Pull", cfg, wd, timeout=3000)
-                vf.tlc_must_pass(r, f"Pull.tla invariants (pre={pre})")
+                vf.tlc_must_pass(r, f"Pull.tla invariants (repaired design, pre={pre})")
                 cov["states"] += r["distinct"]
                 cov["transitions"] += r["generated"]
+            # the code as it is: the design-level counterexample of the known finding is expected (it is not a verdict)
+            cfg = vf.write_cfg(wd, "MC_Pull_asis.cfg", {"MaxAttempts": 2, "MaxFaults": 2, "Pre": '"none"', **ASIS}, MC_BODY)
+            r = vf.tlc("Pull", cfg, wd, timeout=3000)
+            if "Invariant NoBadBlobLeft is violated" not in r["out"] and "Invariant SuccessMeansComplete is violated" not in r["out"]:
+                raise vf.Inconclusive("Pull.tla (code as is) no longer shows the design-level counterexample:\n" + r["out"][-1500:])
             # single-fault attempts exhaustively (one attempt), two-attempt / two-fault scripts sampled
-            cfg = vf.write_cfg(wd, "Gen_Pull1.cfg", {"MaxAttempts": 1, "MaxFaults": 1, "Pre": '"none"'}, GEN_BODY)
+            cfg = vf.write_cfg(wd, "Gen_Pull1.cfg", {"MaxAttempts": 1, "MaxFaults": 1, "Pre": '"none"', **ASIS}, GEN_BODY)
             singles, _ = vf.gen_exhaustive("Pull", cfg, wd)
-            cfg = vf.write_cfg(wd, "Gen_Pull2.cfg", {"MaxAttempts": 2, "MaxFaults": 2, "Pre": '"none"'}, GEN_BODY)
+            cfg = vf.write_cfg(wd, "Gen_Pull2.cfg", {"MaxAttempts": 2, "MaxFaults": 2, "Pre": '"none"', **ASIS}, GEN_BODY)
             doubles, _ = vf.gen_simulate("Pull", cfg, wd, num=4 if quick else 60, depth=4, seed=seed)
             rnd = random.Random(seed)
             singles = vf.dedupe(singles)
@@ -49,7 +83,13 @@ def run(tier="quick", seed=1, replay=None):
             scripts += vf.load_witnesses(PROP)
             cov["bounds"] = f"{len(singles)} single-fault attempts exhaustively, {len(pick) - len(singles)} two-attempt scripts with <= 2 faults each sampled; every script ends with a fault-free attempt"
         recs, v, _ = vf.replay_and_validate(wd, scripts, "./server", "TestVFPullReplay", ["server"], "Trace_Pull",
-                                            go_timeout=5400, tlc_timeout=3000)
+                                            go_timeout=5400, tlc_timeout=3000,
+                                            trace_constants="CONSTANTS VerifyStopsAtFirst = FALSE VerifyOnFailure = FALSE\n")
+        findings = {f["id"]: f for f in vf.load_findings(PROP)}
+        recs_by_t = {}
+        for r in recs:
+            recs_by_t.setdefault(str(r["t"]), []).append(r)
+        kf_hits = {}
         if any(r["ev"] == "harness" for r in recs):
             raise vf.Inconclusive("pull harness: " + json.dumps([r for r in recs if r["ev"] == "harness"][:2]))
         by_t = {str(s["t"]): s for s in scripts}
@@ -67,13 +107,27 @@ def run(tier="quick", seed=1, replay=None):
             if tid in seen_t:
                 continue
             seen_t.add(tid)
+            kf = known_pull_finding(recs_by_t[tid], findings)
+            if kf:
+                kf_hits[kf] = kf_hits.get(kf, 0) + 1
+                continue
             key = tuple(flags)
             shown[key] = shown.get(key, 0) + 1
             if shown[key] > 3 or len(res.violations) >= 9:
                 continue
             p = vf.save_replay(PROP, f"pull-{tier}-{seed}-{tid}.ndjson", json.dumps(by_t.get(tid)) + "\n")
             res.violation(f"{flags} for script {json.dumps(by_t.get(tid, {}).get('attempts'))[:300]}: {json.dumps(recs[ln - 1])[:400]}", p)
-        cov["violating_scripts"] = len(seen_t)
+        for kf, n in kf_hits.items():
+            res.known_finding(f"{findings[kf]['what']} ({n} scripts)")
+        cov["known_finding_scripts"] = kf_hits
+        drift_kinds = {}
+        for ln, tid, flags in v["drift"]:
+            for fl in flags:
+                drift_kinds[fl] = drift_kinds.get(fl, 0) + 1
+        cov["model_drift"] = drift_kinds
+        for k, n in list(drift_kinds.items())[:5]:
+            res.note(f"model drift: {k} on {n} attempts")
+        cov["violating_scripts"] = len(seen_t) - sum(kf_hits.values())
         cov["violation_kinds"] = {",".join(k): n for k, n in shown.items()}
         cov["checker_cmd"] = "tlc Pull.tla (MC, pre=none|old) ; tlc Trace_Pull.tla"
     vf.write_evidence(PROP, tier, seed, "model_checking", cov, time.time() - t0, violations=len(res.violations),
